@@ -37,6 +37,7 @@
 #include "celma/prog_args.hpp"
 #include "celma/prog_args/eval_argument_string.hpp"
 #include "celma/prog_args/groups.hpp"
+#include "celma/common/range_dest.hpp"
 #include "celma/prog_args/detail/check_lower.hpp"
 #include "celma/prog_args/detail/check_upper.hpp"
 #include "celma/prog_args/detail/check_range.hpp"
@@ -82,6 +83,9 @@ struct Slots
    std::priority_queue<int>          pi[NS];
    // fixed-size destinations: every slot is its own exact-size heap block, so that AddressSanitizer sees a write
    // behind the last element (inside one struct it would land in the neighbour slot unnoticed)
+   // range-string destinations: a bitset of 1024 positions (own heap block) and a vector
+   std::bitset<1024>*               rbP[NS];
+   std::vector<int>                  rv[NS];
    using Arr4 = int[4];
    Arr4*                             aiP[NS];
    std::array<int, 4>*               riP[NS];
@@ -93,6 +97,7 @@ struct Slots
       {
          aiP[n] = reinterpret_cast<Arr4*>(new int[4]());
          riP[n] = new std::array<int, 4>();
+         rbP[n] = new std::bitset<1024>();
       }
    }
    ~Slots()
@@ -101,6 +106,7 @@ struct Slots
       {
          delete[] reinterpret_cast<int*>(aiP[n]);
          delete riP[n];
+         delete rbP[n];
       }
    }
    Slots(const Slots&) = delete;
@@ -197,6 +203,8 @@ TypedArgBase* bindSlot(Slots& S, const std::string& slot)
    if (k == "bs") return pa::destination(S.bs[n], slot);
    if (k == "vb") return pa::destination(S.vb[n], slot);
    if (k == "ms") return pa::destination(S.ms[n], slot);
+   if (k == "rb") return pa::destination(celma::common::RangeDest<size_t, std::bitset<1024>>(*S.rbP[n]), slot);
+   if (k == "rv") return pa::destination(celma::common::RangeDest<int, std::vector<int>>(S.rv[n]), slot);
    if (k == "lc") return pa::destination(S.lc[n], slot);
    throw std::invalid_argument("unknown slot kind " + k);
 }
@@ -230,6 +238,8 @@ std::string dumpSlot(Slots& S, const std::string& slot)
    if (k == "ti") return "(" + std::to_string(std::get<0>(S.ti[n])) + ",s" + vf::hex(std::get<1>(S.ti[n])) + "," + std::to_string(std::get<2>(S.ti[n])) + ")";
    if (k == "bs") { std::vector<int> v; for (size_t j = 0; j < 16; ++j) if (S.bs[n][j]) v.push_back(j); return joinInts(v); }
    if (k == "vb") { std::vector<int> v; for (size_t j = 0; j < S.vb[n].size(); ++j) if (S.vb[n][j]) v.push_back(j); return std::to_string(S.vb[n].size()) + joinInts(v); }
+   if (k == "rb") { std::vector<int> v; for (size_t j = 0; j < 1024; ++j) if ((*S.rbP[n])[j]) v.push_back(static_cast<int>(j)); return joinInts(v); }
+   if (k == "rv") return joinInts(S.rv[n]);
    if (k == "ms") { std::string r = "{"; bool f = true; for (auto& kv : S.ms[n]) { r += (f ? "" : ",") + ("s" + vf::hex(kv.first)) + ":" + std::to_string(kv.second); f = false; } return r + "}"; }
    if (k == "lc") return std::to_string(S.lc[n].value());
    return "?";
